@@ -20,7 +20,7 @@ STEPS = ("d", "200d", "y")
 
 # second asset: same spreadsheet row numbers as the first (8, 9, ...), lots consumed across years, a crypto-fee-like FEE row
 SECOND = [
-    ((H.B(2, 3), "="), (H.S(1), "400d"), (H.S(1), "400d")),
+    ((H.B(2, 3), "="), (H.M(2, 1, src=0, dst=0), "d"), (H.S(1), "400d"), (H.S(1), "400d")),  # incl. a consolidation inside one account
     ((H.B(1, 1), "="), (H.B(3, 1), "d"), (H.S(2), "y"), (H.E(2, 1, "STAKING"), "d")),
     ((H.E(2, 2, "WAGES"), "="), (H.M(1, 1), "200d"), (H.S(1, typ="DONATE"), "200d")),
 ]
@@ -28,8 +28,16 @@ SECOND = [
 SCHEDULES = {"fifo": [(1970, "fifo")], "hifo": [(1970, "hifo")], "lifo": [(1970, "lifo")], "fifo->hifo@2021": [(1970, "fifo"), (2021, "hifo")]}
 
 
-def specs_for(hist: History, prefix: str, row_order: str = "reverse", scale: Any = 1, price_scale: Any = 1) -> Optional[List[Dict[str, Any]]]:
-    specs = H.materialize(hist, row_order=row_order, uid=True, scale=scale, price_scale=price_scale)
+def specs_for(hist: History, prefix: str, row_order: str = "reverse", scale: Any = 1, price_scale: Any = 1, tz: int = 0) -> Optional[List[Dict[str, Any]]]:
+    if tz:
+        # every timestamp written in that UTC offset, instants starting at 18:00 UTC (offsets ahead of UTC) / 02:00 UTC (behind): own
+        # calendar dates differ from the UTC dates
+        from datetime import datetime, timezone
+
+        hist = tuple((it[0], it[1], tz) for it in hist)
+        specs = H.materialize(hist, row_order=row_order, uid=True, scale=scale, price_scale=price_scale, base=datetime(2020, 3, 1, 18 if tz > 0 else 2, 0, 0, tzinfo=timezone.utc))
+    else:
+        specs = H.materialize(hist, row_order=row_order, uid=True, scale=scale, price_scale=price_scale)
     if specs is None:
         return None
     for s in specs:
@@ -107,15 +115,15 @@ def histories(depth: int, steps: Sequence[str] = STEPS) -> Iterator[History]:
 
 def make_case(h1: History, second_index: Optional[int], schedule_name: str, window: Tuple[Optional[date], Optional[date]], country: str = "us", lang: str = "en",
               reports: Sequence[str] = ("rp2_full_report",), row_order: str = "reverse", row_order2: Optional[str] = None, scale: Any = 1,
-              price_scale: Any = 1) -> Optional[Dict[str, Any]]:
-    s1 = specs_for(h1, "a", row_order, scale, price_scale)
+              price_scale: Any = 1, tz: int = 0) -> Optional[Dict[str, Any]]:
+    s1 = specs_for(h1, "a", row_order, scale, price_scale, tz)
     if s1 is None:
         return None
     assets = {"B1": s1}
-    label = H.hist_str(h1) + (f" [amounts x {scale}, prices x {price_scale}]" if (scale != 1 or price_scale != 1) else "")
+    label = H.hist_str(h1) + (f" [amounts x {scale}, prices x {price_scale}]" if (scale != 1 or price_scale != 1) else "") + (f" [all timestamps at UTC{tz / 60:+.0f}h]" if tz else "")
     if second_index is not None:
         # by default the second asset's rows run the other way, so that a LATE row of one asset shares its number with an EARLY row of the other
-        s2 = specs_for(SECOND[second_index], "b", row_order2 or ("chrono" if row_order == "reverse" else "reverse"))
+        s2 = specs_for(SECOND[second_index], "b", row_order2 or ("chrono" if row_order == "reverse" else "reverse"), tz=tz)
         assert s2 is not None
         assets["B2"] = s2
         label += f" || B2: {H.hist_str(SECOND[second_index])}"
